@@ -236,7 +236,7 @@ impl Node {
                     um.delete_columns(*sheet, *at, *n)
                 }
             })(),
-            Flush | Deliver { .. } | Save | Restart { .. } | XlsxRestart | XlsxExportImport { .. } | CorruptImport { .. } | Tick { .. } => {
+            Flush | Deliver { .. } | Save | Restart { .. } | XlsxRestart | XlsxExportImport { .. } | CorruptImport { .. } | Tick { .. } | Bare { .. } => {
                 Err("harness: world event applied to a node".to_string())
             }
         };
